@@ -13,6 +13,12 @@ prepare_scratch() {
   mkdir -p "$scr/src/internal/vshim" "$scr/src/zzverif"
   cp -r "$VERIF_ROOT"/shim/sched "$VERIF_ROOT"/shim/atomic "$VERIF_ROOT"/shim/sync "$VERIF_ROOT"/shim/time "$VERIF_ROOT"/shim/rt "$scr/src/internal/vshim/"
   cp "$VERIF_ROOT/shim/xsync_hooks.go.txt" "$scr/src/internal/xsync/verif_hooks.go"
+  cp "$VERIF_ROOT/shim/xsync_struct.go.txt" "$scr/src/internal/xsync/verif_struct.go"
+  if ! ( cd "$scr/src" && go build ./internal/xsync ) >/dev/null 2>&1; then
+    # the bucket structs no longer have the fields the chain views name: fall back to the stub (C11 loses its slot-layout key)
+    cp "$VERIF_ROOT/shim/xsync_struct_stub.go.txt" "$scr/src/internal/xsync/verif_struct.go"
+    echo "instrument: structural chain views unavailable for this tree, stub installed" >> "$scr/instrument.log"
+  fi
   cp "$VERIF_ROOT/shim/cache_export.go.txt" "$scr/src/verif_export.go"
   cp -r "$VERIF_ROOT"/harness/* "$scr/src/zzverif/"
   ( cd "$scr/src" && go mod edit -go=1.21 -require=github.com/anishathalye/porcupine@v1.3.0 ) || return 2
